@@ -78,3 +78,30 @@ def bytearray_protocol_suggestion(sx, p):
     for c in back:
         got = got + c
     return sx.And(lex, sx.eq(got, whole))
+
+
+WS = [' ', '\n', '\r\n', '\t', '  ']
+
+
+@harness('C08', params=[(n, w) for n in (1, 2, 3, 4) for w in range(len(WS))], label=lambda p: 'bytes=%d whitespace=%r' % (p[0], WS[p[1]]),
+         functions=['spyne.protocol._inbase.InProtocolBase.byte_array_from_bytes', 'spyne.model.binary.ByteArray.from_base64'],
+         bounds={'literal': 'the canonical base64 text of every byte string of 1..4 bytes with one run of XML whitespace (space, LF, '
+                            'CRLF, tab, two spaces) inserted at any position, leading and trailing included - xs:base64Binary allows '
+                            'whitespace between the characters (line-wrapped literals)'})
+def base64_read_lexical(sx, p):
+    """a line-wrapped or blank-separated xs:base64Binary literal is read as the bytes it denotes"""
+    n, w = p
+    T = TYPES['base64']
+    data = sx.text('data', n, lo=0, hi=255, bytes_=True)
+    canon = PROT.to_unicode(T, (data,))
+    L = 4 * ((n + 2) // 3)
+    pos = sx.choose('pos', list(range(0, L + 1)))
+    text = canon[:pos] + WS[w] + canon[pos:]
+    sx.observe('text', text)
+    back = PROT.from_unicode(T, text)
+    if not isinstance(back, (tuple, list)):
+        return False
+    got = b''
+    for c in back:
+        got = got + c
+    return sx.eq(got, data)
